@@ -946,3 +946,204 @@ Proof.
 Qed.
 
 End DollarSound.
+
+(* ------------------------------------------------------------------------------------------ *)
+(** * Parsed references always name existing groups                                              *)
+
+Section NodeWf.
+Variable is_word_char : Z -> bool.
+Variable is_ecma_start : Z -> bool.
+Variable is_ecma_char : Z -> bool.
+Variable env : penv.
+Variable n : Z.
+Hypothesis Henv : env_ok env n.
+
+Notation scan_dollar := (Replace.scan_dollar is_word_char is_ecma_start is_ecma_char env).
+Notation scan_replacement_go := (Replace.scan_replacement_go is_word_char is_ecma_start is_ecma_char env).
+
+Lemma slot_group_num_ok (c : Z) : is_capture_slot env c = true -> group_num_ok env c.
+Proof.
+  unfold is_capture_slot, group_num_ok. destruct (pe_caps env) as [l|].
+  - destruct (zlist_assoc c l); [intros _; discriminate|discriminate].
+  - intros H. lia.
+Qed.
+
+Lemma group_zero_ok : group_num_ok env 0.
+Proof.
+  destruct Henv as (Hn & Hcaps & _). unfold group_num_ok. destruct (pe_caps env) as [l|].
+  - destruct Hcaps as (_ & ->). discriminate.
+  - lia.
+Qed.
+
+Lemma name_ref_ok (name : list Z) :
+  is_capture_name env name = true -> ref_ok env (capture_slot_from_name env name).
+Proof.
+  destruct Henv as (Hn & Hcaps & Hnames). unfold is_capture_name, capture_slot_from_name.
+  destruct (pe_capnames env) as [l|]; [|discriminate].
+  destruct (name_assoc name l) as [v|] eqn:Ea; [|discriminate]. intros _.
+  apply name_assoc_In in Ea. rewrite Forall_forall in Hnames. specialize (Hnames _ Ea). cbn [snd] in Hnames.
+  destruct Hnames as (H0 & H1). right. split; [exact H0|]. unfold group_num_ok.
+  destruct (pe_caps env); [exact H1|]. lia.
+Qed.
+
+Lemma special_ref_ok (ch : Z) : special_capnum ch <> 1 -> ref_ok env (special_capnum ch).
+Proof.
+  unfold special_capnum, s_replaceLeftPortion, s_replaceRightPortion, s_replaceLastGroup, s_replaceWholeString.
+  destruct (ch =? 38). { intros _. right. split; [lia|apply group_zero_ok]. }
+  destruct (ch =? 96). { intros _. left. lia. }
+  destruct (ch =? 39). { intros _. left. lia. }
+  destruct (ch =? 43). { intros _. left. lia. }
+  destruct (ch =? 95). { intros _. left. lia. }
+  intros H; contradiction.
+Qed.
+
+Lemma ecma_digits_slot (nn : Z) (best : option (Z * list Z)) (p : list Z) (c : Z) (r : list Z) :
+  (forall c' r', best = Some (c', r') -> is_capture_slot env c' = true) ->
+  ecma_digits env nn best p = Ok (Some (c, r)) -> is_capture_slot env c = true.
+Proof.
+  revert nn best. induction p as [|ch p IH]; intros nn best Hb H; cbn [ecma_digits] in H.
+  - inversion H; subst. eapply Hb; reflexivity.
+  - destruct (negb (is_digit ch)).
+    + inversion H; subst. eapply Hb; reflexivity.
+    + destruct ((rg_maxValueDiv10 <? nn) || (nn =? rg_maxValueDiv10) && (rg_maxValueMod10 <? ch - 48)); [discriminate|].
+      eapply IH; [|exact H]. intros c' r'.
+      destruct (is_capture_slot env (nn * 10 + (ch - 48))) eqn:Es.
+      * intros E; inversion E; subst. exact Es.
+      * apply Hb.
+Qed.
+
+Lemma ref_node_wf (m : Z) : ref_ok env m -> node_wf env (mk_ref m).
+Proof. intros H. right; right. split; [reflexivity|exact H]. Qed.
+
+Lemma scan_dollar_node_wf (p : list Z) (nd : rnode) (rest : list Z) :
+  scan_dollar p = Ok (nd, rest) -> node_wf env nd.
+Proof.
+  unfold Replace.scan_dollar. destruct p as [|ch0 p0].
+  { intros H; inversion H; subst. left; reflexivity. }
+  assert (forall nd r, Ok (mk_one 36, ch0 :: p0) = Ok (nd, r) -> node_wf env nd) as Hlit.
+  { intros nd' r' H. inversion H; subst. left; reflexivity. }
+  set (angled := (ch0 =? 123) && (1 <? zlen (ch0 :: p0))).
+  destruct (if angled then p0 else ch0 :: p0) as [|ch q1] eqn:Eq; [discriminate|].
+  destruct (is_digit ch) eqn:Ed.
+  - destruct (negb angled && use_e env).
+    + destruct (ecma_digits env (ch - 48) (if is_capture_slot env (ch - 48) then Some (ch - 48, q1) else None) q1)
+        as [r| | |] eqn:E; try discriminate. cbn [bind].
+      destruct r as [[capnum rest']|]; [|apply Hlit].
+      destruct (0 <=? capnum) eqn:E0; [|apply Hlit]. intros H; inversion H; subst.
+      apply ref_node_wf. right. split; [lia|]. apply slot_group_num_ok.
+      eapply ecma_digits_slot; [|exact E]. intros c' r'.
+      destruct (is_capture_slot env (ch - 48)) eqn:Es; [|discriminate]. intros E'; inversion E'; subst. exact Es.
+    + unfold scan_decimal. destruct (scan_decimal_go 0 (ch :: q1)) as [[capnum q2]| | |] eqn:E; try discriminate.
+      cbn [bind]. apply scan_decimal_go_spec in E as (_ & Hv).
+      assert (0 <= capnum) as Hc0.
+      { subst capnum. apply dval_go_nonneg; [lia|]. pose proof (span_digits_spec (ch :: q1)) as Hs.
+        destruct (span_digits (ch :: q1)). cbn [fst]. tauto. }
+      assert (forall q, (if is_capture_slot env capnum then Ok (mk_ref capnum, q) else Ok (mk_one 36, ch0 :: p0)) = Ok (nd, rest) ->
+                        node_wf env nd) as Hk.
+      { intros q. destruct (is_capture_slot env capnum) eqn:Es; [|apply Hlit].
+        intros H; inversion H; subst. apply ref_node_wf. right. split; [exact Hc0|apply slot_group_num_ok; exact Es]. }
+      destruct (negb angled).
+      * cbn [andb]. apply Hk.
+      * destruct q2 as [|c q3]; [cbn [andb]; apply Hlit|].
+        destruct (c =? 125); cbn [andb]; [apply Hk|apply Hlit].
+  - destruct (angled && is_group_name_start is_word_char is_ecma_start env ch).
+    + destruct (scan_capname is_word_char is_ecma_start is_ecma_char env (ch :: q1)) as [[name q2]| | |] eqn:E; try discriminate.
+      cbn [bind]. destruct q2 as [|c q3]; [apply Hlit|].
+      destruct (c =? 125); cbn [andb]; [|apply Hlit].
+      destruct (is_capture_name env name) eqn:En; [|apply Hlit].
+      intros H; inversion H; subst. apply ref_node_wf. apply name_ref_ok. exact En.
+    + destruct (negb angled); [|apply Hlit].
+      destruct (ch =? 36).
+      * intros H; inversion H; subst. left; reflexivity.
+      * destruct (negb (special_capnum ch =? 1)) eqn:Es; [|apply Hlit].
+        intros H; inversion H; subst. apply ref_node_wf. apply special_ref_ok. lia.
+Qed.
+
+Lemma add_to_concatenate_wf (run : list Z) : Forall (node_wf env) (add_to_concatenate run).
+Proof.
+  destruct run as [|c [|c' run]]; cbn [add_to_concatenate].
+  - constructor.
+  - constructor; [left; reflexivity|constructor].
+  - constructor; [right; left; reflexivity|constructor].
+Qed.
+
+Lemma scan_replacement_go_wf (fuel : nat) (p : list Z) (nodes : list rnode) :
+  scan_replacement_go fuel p = Ok nodes -> Forall (node_wf env) nodes.
+Proof.
+  revert p nodes. induction fuel as [|f IH]; intros p nodes H; [discriminate|]. cbn [Replace.scan_replacement_go] in H.
+  destruct p as [|c p']; [inversion H; constructor|].
+  destruct (span_dollar (c :: p')) as [run rest] eqn:Es.
+  destruct rest as [|d after].
+  - inversion H; subst. apply add_to_concatenate_wf.
+  - destruct (scan_dollar after) as [[nd rest']| | |] eqn:E; try discriminate. cbn [bind] in H.
+    destruct (scan_replacement_go f rest') as [more| | |] eqn:E2; try discriminate. cbn [bind] in H.
+    inversion H; subst. apply Forall_app. split; [apply add_to_concatenate_wf|].
+    constructor; [eapply scan_dollar_node_wf; exact E|]. eapply IH; exact E2.
+Qed.
+
+End NodeWf.
+
+(* ------------------------------------------------------------------------------------------ *)
+(** * scanReplacement = the grammar                                                              *)
+
+Section RepSound.
+Variable is_word_char : Z -> bool.
+Variable is_ecma_start : Z -> bool.
+Variable is_ecma_char : Z -> bool.
+Variable env : penv.
+
+Notation rep_spec := (rep_spec is_word_char is_ecma_start is_ecma_char env).
+Notation scan_replacement_go := (Replace.scan_replacement_go is_word_char is_ecma_start is_ecma_char env).
+
+Lemma items_of_add_to_concatenate (run : list Z) :
+  items_of_nodes (add_to_concatenate run) = map ILit run.
+Proof.
+  destruct run as [|c [|c' run]]; [reflexivity|reflexivity|].
+  unfold items_of_nodes. cbn [add_to_concatenate flat_map]. rewrite app_nil_r. reflexivity.
+Qed.
+
+Lemma items_of_nodes_app (a b : list rnode) : items_of_nodes (a ++ b) = items_of_nodes a ++ items_of_nodes b.
+Proof. unfold items_of_nodes. apply flat_map_app. Qed.
+
+Lemma rep_spec_run (run s : list Z) (its : list item) :
+  ~ In 36 run -> rep_spec s its -> rep_spec (run ++ s) (map ILit run ++ its).
+Proof.
+  induction run as [|c run IH]; intros Hn Hs; [exact Hs|]. cbn [app map].
+  apply RS_char; [intros ->; apply Hn; left; reflexivity|].
+  apply IH; [intros Hc; apply Hn; right; exact Hc|exact Hs].
+Qed.
+
+Lemma scan_replacement_go_sound (fuel : nat) (p : list Z) (nodes : list rnode) :
+  (use_e env = true -> ~ In 92 p) ->
+  scan_replacement_go fuel p = Ok nodes -> rep_spec p (items_of_nodes nodes).
+Proof.
+  revert p nodes. induction fuel as [|f IH]; intros p nodes Hbs H; [discriminate|]. cbn [Replace.scan_replacement_go] in H.
+  destruct p as [|c p']; [inversion H; subst; apply RS_nil|].
+  destruct (span_dollar (c :: p')) as [run rest] eqn:Es.
+  destruct (span_dollar_spec _ _ _ Es) as (Hp & Hrun & Hr).
+  destruct rest as [|d after].
+  - inversion H; subst. rewrite items_of_add_to_concatenate. rewrite Hp.
+    rewrite <- (app_nil_r (map ILit run)). apply rep_spec_run; [exact Hrun|apply RS_nil].
+  - destruct Hr as [Hr|(after' & Hr)]; [discriminate|]. inversion Hr; subst d after'.
+    destruct (scan_dollar is_word_char is_ecma_start is_ecma_char env after) as [[nd rest']| | |] eqn:E; try discriminate.
+    cbn [bind] in H.
+    destruct (scan_replacement_go f rest') as [more| | |] eqn:E2; try discriminate. cbn [bind] in H.
+    inversion H; subst nodes. rewrite items_of_nodes_app, items_of_add_to_concatenate. rewrite Hp.
+    assert (use_e env = true -> ~ In 92 after) as Hbs1.
+    { intros He Hc. apply (Hbs He). rewrite Hp. apply in_or_app. right. right. exact Hc. }
+    apply rep_spec_run; [exact Hrun|].
+    unfold items_of_nodes. cbn [flat_map]. fold (items_of_nodes more).
+    apply scan_dollar_sound in E; [|exact Hbs1].
+    destruct E as [(it & Hf & Hit)|(Hno & -> & ->)].
+    + rewrite Hit. cbn [app]. eapply RS_form; [exact Hf|]. apply IH; [|exact E2].
+      intros He Hc. apply (Hbs1 He).
+      (* rest' is a suffix of after: every rune of rest' occurs in after *)
+      clear - Hf Hc. revert Hc. generalize 92. intros x Hc.
+      inversion Hf; subst; try (right; exact Hc); try (apply in_or_app; right; exact Hc);
+        try (right; apply in_or_app; right; right; exact Hc).
+    + cbn [items_of_node mk_one n_t n_ch Z.eqb app]. change (rg_NtOne =? rg_NtMulti) with false.
+      change (rg_NtOne =? rg_NtOne) with true. cbn [app].
+      apply RS_literal; [exact Hno|]. apply IH; [exact Hbs1|exact E2].
+Qed.
+
+End RepSound.
